@@ -1,6 +1,7 @@
 """C19 Tree navigation API agrees with a set-based model of the tree."""
 from .. import model, sweep
 from ..runner import Result, scratch
+from ..bridge import build_any
 from ..bridge import T, build, quiet, build_via_export, build_via_tiger, perturb, extract, raw_leaves, monitor
 from .c11 import ref_delete
 
@@ -8,7 +9,7 @@ ID = 'C19'
 LEVEL = 'exploration'
 TECHNIQUE = 'bounded exhaustive enumeration of tree shapes x child-list orders, set-model oracle'
 
-ORDERS = [None, 'rev', 1, 'export', 'tiger']
+ORDERS = [None, 'rev', 1, 'export', 'tiger', 'written']
 
 
 def plan(tier, seed):
@@ -119,6 +120,8 @@ def check_tree(mt_json, order):
             t = build_via_export(mt, scratch())
         elif order == 'tiger':
             t = build_via_tiger(mt, scratch())
+        elif order == 'written':
+            t = build_any(mt, 'written')
         else:
             t = build(mt, child_order=order)
         compare_live(t, mt, case, out, 'fresh tree')
